@@ -5,6 +5,7 @@
 # See file LICENSE for details.
 ############################################################################
 
+import copy
 import logging
 from collections import defaultdict
 from functools import cmp_to_key
@@ -50,9 +51,9 @@ class GraphBasedModelConstructor:
     detected_known_isoforms = set()
     extended_transcript_ids = set()
     # (strand, intron chain) of the novel spliced models already reported on this chromosome by the constructors of other
-    # (sub-)regions: reads of one novel isoform that bridge a region cut are distributed over two constructors, each of
-    # which would report the chain (cleared per chromosome task, like detected_known_isoforms); the value is the id of the
-    # model reported first: the reads that support the chain in a later constructor are reads of that model
+    # (sub-)regions -> the model reported first (cleared per chromosome task, like detected_known_isoforms): reads of one novel
+    # isoform that bridge a region cut are distributed over two constructors; the later one does not report the chain again
+    # and assigns its reads to the model reported first
     reported_novel_chains = {}
 
     def __init__(self, gene_info, chr_record, params, transcript_counter, id_distributor):
@@ -81,7 +82,7 @@ class GraphBasedModelConstructor:
         self.internal_counter = defaultdict(int)
         self.read_assignment_counts = defaultdict(int)
         self.transcript2transcript = []
-        self.repeated_chain_models = []
+        self.earlier_models = []
 
     def get_transcript_id(self):
         return self.id_distributor.increment()
@@ -138,13 +139,13 @@ class GraphBasedModelConstructor:
         self.pre_filter_transcripts()
         self.assign_reads_to_models(read_assignment_storage)
         self.filter_transcripts()
-        self.drop_novel_chains_reported_elsewhere()
+        self.drop_novel_chains_reported_elsewhere(read_assignment_storage)
         # reassign reads
         self.assign_reads_to_models(read_assignment_storage)
         self.forward_counts()
-        # the local copies of models reported by earlier constructors have passed their reads on and are not printed again
+        # the copies of models reported by earlier constructors have taken their reads and are not printed again
         self.transcript_model_storage = [model for model in self.transcript_model_storage
-                                         if not any(model is local_copy for local_copy in self.repeated_chain_models)]
+                                         if not any(model is earlier_model for earlier_model in self.earlier_models)]
 
         transcript_joiner = TranscriptToGeneJoiner(self.transcript_model_storage, self.gene_info)
         self.transcript_model_storage = transcript_joiner.join_transcripts()
@@ -294,33 +295,30 @@ class GraphBasedModelConstructor:
         del self.transcript_read_ids[transcript_id]
         del self.internal_counter[transcript_id]
 
-    def drop_novel_chains_reported_elsewhere(self):
-        # a novel chain already reported by the constructor of another (sub-)region is not reported again, but the reads
-        # that support it here are reads of that very isoform: the local copy takes the id of the model reported first, so
-        # its reads are listed and counted under that id (the constructors of a chromosome share the counter), and leaves
-        # the storage once the counts are forwarded
-        self.repeated_chain_models = []
-        repeated_chains = set()
+    def drop_novel_chains_reported_elsewhere(self, read_assignment_storage):
+        # a novel chain already reported by the constructor of another (sub-)region is not reported again: the local model is
+        # deleted and its reads are assigned again below. The reads of this constructor that belong to an isoform reported
+        # earlier - whether or not they are enough to build the chain here - are reads of that model: a copy of every earlier
+        # model that overlaps the reads processed here joins the storage for the second assign_reads_to_models, so the reads are
+        # compared with the model that is in the output, as in a cluster that is not cut, and are listed and counted under
+        # its id (the constructors of a chromosome share the counter); the copies leave the storage once the counts are forwarded
         kept = []
         own_chains = {}
         for model in self.transcript_model_storage:
             if model.transcript_type != TranscriptModelType.known and len(model.exon_blocks) > 1:
                 chain = (model.strand, tuple(junctions_from_blocks(model.exon_blocks)))
                 if chain in GraphBasedModelConstructor.reported_novel_chains:
-                    if chain in repeated_chains:
-                        # a second local copy of the chain: its reads are assigned again below
-                        self.delete_from_storage(model.transcript_id)
-                        continue
-                    repeated_chains.add(chain)
-                    first_id = GraphBasedModelConstructor.reported_novel_chains[chain]
-                    self.transcript_read_ids[first_id] = self.transcript_read_ids.pop(model.transcript_id)
-                    self.internal_counter[first_id] = self.internal_counter.pop(model.transcript_id)
-                    model.transcript_id = first_id
-                    self.repeated_chain_models.append(model)
-                else:
-                    own_chains.setdefault(chain, model.transcript_id)
+                    self.delete_from_storage(model.transcript_id)
+                    continue
+                own_chains.setdefault(chain, model)
             kept.append(model)
-        self.transcript_model_storage = kept
+        spans = [(a.corrected_exons[0][0], a.corrected_exons[-1][1]) for a in read_assignment_storage if a.corrected_exons]
+        self.earlier_models = []
+        if spans:
+            reads_start, reads_end = min(span[0] for span in spans), max(span[1] for span in spans)
+            self.earlier_models = [copy.copy(model) for model in GraphBasedModelConstructor.reported_novel_chains.values()
+                                   if model.get_start() <= reads_end and reads_start <= model.get_end()]
+        self.transcript_model_storage = kept + self.earlier_models
         # compared with LATER constructors only: what a single constructor reports is unchanged
         GraphBasedModelConstructor.reported_novel_chains.update(own_chains)
 
